@@ -95,21 +95,28 @@ Fixpoint filter_res {A} (f : A -> res bool) (l : list A) : res (list A) :=
 
 Definition clump := (svar * list svar)%type.
 
-(* the while loop of clumpstr; [pass iv c] = "r2 of c with the index exceeds the threshold".
-   Fuel: one unit per clump. *)
-Fixpoint clump_loop (fuel : nat) (p1 kb : Q) (pass : svar -> svar -> res bool) (stats : list svar)
-  : res (list clump) :=
+(* the while loop of clumpstr.  [load iv] = LoadVariant(indexvar) (done before the candidates
+   are looked at, so it can raise even when the window is empty); [pass gi iv c] = "r2 of c
+   with the index exceeds the threshold".  Fuel: one unit per clump. *)
+Fixpoint clump_loop {G} (fuel : nat) (p1 kb : Q) (load : svar -> res G)
+         (pass : G -> svar -> svar -> res bool) (stats : list svar) : res (list clump) :=
   match next_index p1 stats with
   | None => Ok []
   | Some iv =>
       match fuel with
       | O => Err E_Timeout
       | S f =>
-          bind (filter_res (pass iv) (query_window iv kb stats)) (fun members =>
-          bind (clump_loop f p1 kb pass (remove_vars (members ++ [iv]) stats)) (fun rest =>
-          Ok ((iv, members) :: rest)))
+          bind (load iv) (fun gi =>
+          bind (filter_res (pass gi iv) (query_window iv kb stats)) (fun members =>
+          bind (clump_loop f p1 kb load pass (remove_vars (members ++ [iv]) stats)) (fun rest =>
+          Ok ((iv, members) :: rest))))
       end
   end.
+
+(* the loop over a total boolean r2 test (no genotype lookup failures) *)
+Definition clump_loop_total (fuel : nat) (p1 kb : Q) (pb : svar -> svar -> bool) (stats : list svar)
+  : res (list clump) :=
+  clump_loop fuel p1 kb (fun _ => Ok tt) (fun _ iv c => Ok (pb iv c)) stats.
 
 (* ---- genotypes -------------------------------------------------------------- *)
 
@@ -256,10 +263,10 @@ Definition clumpstr (r2of : svar -> svar -> list (Z * Z) -> list (Z * Z) -> res 
   if match k_snps k with Some a => existsb snp_calls_bad (gs_vars a) | None => false end then Err E_Value else
   bind (merged_gts (k_snps k) (k_strs k)) (fun gts =>
   let stats := s1 ++ s2 in
-  clump_loop (length stats) (k_p1 k) (k_kb k)
-    (fun iv c => bind (load_variant gts iv) (fun gi => bind (load_variant gts c) (fun gc =>
-                 bind (r2of iv c gc gi) (fun r =>
-                 Ok (match r with Some v => Qlt_bool (k_r2 k) v | None => false end)))))
+  clump_loop (length stats) (k_p1 k) (k_kb k) (load_variant gts)
+    (fun gi iv c => bind (load_variant gts c) (fun gc =>
+                    bind (r2of iv c gc gi) (fun r =>
+                    Ok (match r with Some v => Qlt_bool (k_r2 k) v | None => false end))))
     stats))).
 
 Definition pearson_oracle (iv c : svar) (gc gi : list (Z * Z)) : res (option Q) := Ok (pearson_ld gc gi).
